@@ -251,6 +251,20 @@ fn master_requests() -> Vec<(String, Req)> {
         ])
         .await
     })));
+    // as many objects as an 8-bit count can (255) and cannot (256: every 8-bit index once) hold
+    for n in [255usize, 256] {
+        v.push((format!("dead-bands-u8-x{n}{}", if n > 255 { "-may-reject" } else { "" }), req(move |mut a| async move {
+            a.write_dead_bands(vec![DeadBandHeader::group34_var1_u8((0..n).map(|i| (i as u8, i as u16)).collect())]).await
+        })));
+        v.push((format!("operate-g41v2-u8-x{n}{}", if n > 255 { "-may-reject" } else { "" }), req(move |mut a| {
+            let mut b = CommandBuilder::new();
+            for i in 0..n {
+                b.add_u8(Group41Var2::new(i as i16), i as u8);
+            }
+            let h = b.build();
+            async move { a.operate(CommandMode::DirectOperate, h).await }
+        })));
+    }
     v.push(("empty-response-freeze".into(), req(|mut a| async move {
         a.send_and_expect_empty_response(
             FunctionCode::FreezeAtTime,
@@ -482,7 +496,16 @@ impl CaseSpace for Programs {
                 return res;
             }
             if frags.is_empty() {
-                res.violation = Some(Violation::new("C09.P1", format!("request-not-transmitted:{name}"), "nothing written".to_string()));
+                // a request that cannot be encoded may be refused: the user is told, nothing is sent
+                let (cbs, _) = sim.take_cb();
+                let refused = cbs.iter().any(|c| matches!(c, crate::msim::MCb::Done(n, r) if n == name && r.contains("Err(")));
+                if name.ends_with("-may-reject") && refused {
+                    if transcript {
+                        res.transcript.push(format!("{name}: refused ({cbs:?})"));
+                    }
+                    return res;
+                }
+                res.violation = Some(Violation::new("C09.P1", format!("request-not-transmitted:{name}"), format!("nothing written; callbacks {cbs:?}")));
                 return res;
             }
             (name.clone(), frags, true)
@@ -819,6 +842,299 @@ impl CaseSpace for Mutants {
     }
 }
 
+// ---------------------------------------------------------------------------------------
+// (d) group 70 free-format objects: the library's writer against its reader, field by field
+// ---------------------------------------------------------------------------------------
+
+struct FileObjects {
+    cases: Vec<dnp3::verif::seams::FileObj>,
+}
+
+fn time48(t: u64) -> [u8; 6] {
+    let b = t.to_le_bytes();
+    [b[0], b[1], b[2], b[3], b[4], b[5]]
+}
+
+/// the encoding IEEE 1815 (Annex A, g70) gives the object
+fn file_reference(p: &dnp3::verif::seams::FileObj) -> Vec<u8> {
+    let mut o = Vec::new();
+    let s1 = p.s1.as_bytes();
+    let s2 = p.s2.as_bytes();
+    match p.var {
+        2 => {
+            o.extend_from_slice(&12u16.to_le_bytes());
+            o.extend_from_slice(&(s1.len() as u16).to_le_bytes());
+            o.extend_from_slice(&(12 + s1.len() as u16).to_le_bytes());
+            o.extend_from_slice(&(s2.len() as u16).to_le_bytes());
+            o.extend_from_slice(&p.a.to_le_bytes());
+            o.extend_from_slice(s1);
+            o.extend_from_slice(s2);
+        }
+        3 => {
+            o.extend_from_slice(&26u16.to_le_bytes());
+            o.extend_from_slice(&(s1.len() as u16).to_le_bytes());
+            o.extend_from_slice(&time48(p.time));
+            o.extend_from_slice(&p.perms.to_le_bytes());
+            o.extend_from_slice(&p.a.to_le_bytes());
+            o.extend_from_slice(&p.b.to_le_bytes());
+            o.extend_from_slice(&p.code.to_le_bytes());
+            o.extend_from_slice(&p.c.to_le_bytes());
+            o.extend_from_slice(&p.d.to_le_bytes());
+            o.extend_from_slice(s1);
+        }
+        4 => {
+            o.extend_from_slice(&p.a.to_le_bytes());
+            o.extend_from_slice(&p.b.to_le_bytes());
+            o.extend_from_slice(&p.c.to_le_bytes());
+            o.extend_from_slice(&p.d.to_le_bytes());
+            o.push(p.code as u8);
+            o.extend_from_slice(s1);
+        }
+        5 => {
+            o.extend_from_slice(&p.a.to_le_bytes());
+            o.extend_from_slice(&p.b.to_le_bytes());
+            o.extend_from_slice(&p.data);
+        }
+        6 => {
+            o.extend_from_slice(&p.a.to_le_bytes());
+            o.extend_from_slice(&p.b.to_le_bytes());
+            o.push(p.code as u8);
+            o.extend_from_slice(s1);
+        }
+        7 => {
+            o.extend_from_slice(&20u16.to_le_bytes());
+            o.extend_from_slice(&(s1.len() as u16).to_le_bytes());
+            o.extend_from_slice(&p.code.to_le_bytes());
+            o.extend_from_slice(&p.b.to_le_bytes());
+            o.extend_from_slice(&time48(p.time));
+            o.extend_from_slice(&p.perms.to_le_bytes());
+            o.extend_from_slice(&p.d.to_le_bytes());
+            o.extend_from_slice(s1);
+        }
+        _ => o.extend_from_slice(s1),
+    }
+    o
+}
+
+fn build_file_objects() -> FileObjects {
+    use dnp3::verif::seams::FileObj;
+    let mut cases = Vec::new();
+    let names = ["", "a", "dir/file.txt", "ünï"];
+    // every permission word with every other field at two settings (v3 and v7 carry permissions)
+    for var in [3u8, 7] {
+        for perms in 0..512u16 {
+            for k in 0..2usize {
+                cases.push(FileObj {
+                    var,
+                    a: [0, 0x01020304][k],
+                    b: [0, 0xA1B2C3D4][k],
+                    c: [0, 0x1122][k],
+                    d: [0, 0x3344][k],
+                    perms,
+                    code: [1, 2][k],
+                    time: [0, 0x0000_A1A2_A3A4_A5A6][k],
+                    s1: names[(perms as usize + k) % names.len()].to_string(),
+                    ..Default::default()
+                });
+            }
+        }
+    }
+    // every status / mode / type code with boundary numbers
+    let nums32 = [0u32, 1, 0x01020304, u32::MAX];
+    let nums16 = [0u16, 1, 0x0102, u16::MAX];
+    for var in [3u8, 4, 6, 7] {
+        let codes: Vec<u16> = if var == 4 || var == 6 { (0..=255).collect() } else { vec![0, 1, 2, 3, 4, 255, 256, 0xFFFF] };
+        for code in codes {
+            for (i, a) in nums32.iter().enumerate() {
+                cases.push(FileObj {
+                    var,
+                    a: *a,
+                    b: nums32[(i + 1) % 4],
+                    c: nums16[(i + 2) % 4],
+                    d: nums16[(i + 3) % 4],
+                    perms: 0o640,
+                    code,
+                    time: [0u64, 1, (1 << 48) - 1, 0x0000_0102_0304_0506][i],
+                    s1: names[i].to_string(),
+                    ..Default::default()
+                });
+            }
+        }
+    }
+    for (i, a) in nums32.iter().enumerate() {
+        for s1 in names {
+            for s2 in names {
+                cases.push(FileObj { var: 2, a: *a, s1: s1.to_string(), s2: s2.to_string(), ..Default::default() });
+            }
+            cases.push(FileObj { var: 8, s1: s1.to_string(), ..Default::default() });
+        }
+        for n in [0usize, 1, 2, 255, 1000] {
+            cases.push(FileObj { var: 5, a: *a, b: nums32[(i + 1) % 4], data: (0..n).map(|k| (k * 7) as u8).collect(), ..Default::default() });
+        }
+    }
+    FileObjects { cases }
+}
+
+impl CaseSpace for FileObjects {
+    fn name(&self) -> String {
+        "file-objects".into()
+    }
+    fn total(&self) -> usize {
+        self.cases.len()
+    }
+    fn run(&self, index: usize, transcript: bool) -> RunResult {
+        let mut res = RunResult::default();
+        let p = &self.cases[index];
+        let reference = file_reference(p);
+        res.obs = crate::explore::fnv_str(&format!("{p:?}"));
+        res.transitions = 1;
+        let out = match crate::kernel::guarded(|| dnp3::verif::seams::file_object(p, &reference)) {
+            Ok(o) => o,
+            Err(e) => {
+                res.violation = Some(Violation::new("C09.X0", format!("panic:g70v{}", p.var), format!("{p:?}: {e}")));
+                return res;
+            }
+        };
+        if transcript {
+            res.transcript.push(format!("object    {}", out.original));
+            res.transcript.push(format!("reference {}", app::hex(&reference[..reference.len().min(64)])));
+            res.transcript.push(format!("encoded   {:?}", out.encoded.as_ref().map(|r| r.as_ref().map(|b| app::hex(&b[..b.len().min(64)])))));
+            res.transcript.push(format!("decoded   {:?}", out.decoded));
+        }
+        let key = format!("g70v{}", p.var);
+        if let Some(enc) = &out.encoded {
+            match enc {
+                Ok(b) if *b == reference => {}
+                Ok(b) => {
+                    res.violation = Some(Violation::new("C09.F1", format!("file-object-encoding-differs-from-the-standard:{key}"), format!("{}: library {} reference {}", out.original, app::hex(&b[..b.len().min(48)]), app::hex(&reference[..reference.len().min(48)]))));
+                    return res;
+                }
+                Err(e) => {
+                    res.violation = Some(Violation::new("C09.F1", format!("file-object-not-encoded:{key}"), format!("{}: {e}", out.original)));
+                    return res;
+                }
+            }
+        }
+        match &out.decoded {
+            Ok(d) if *d == out.original => {}
+            other => {
+                res.violation = Some(Violation::new("C09.F2", format!("file-object-decodes-to-something-else:{key}"), format!("encoded {} decoded {:?}", out.original, other)));
+                return res;
+            }
+        }
+        res.nontrivial = true;
+        res.model_states.push(p.var as u64);
+        res
+    }
+}
+
+// ---------------------------------------------------------------------------------------
+// (e) device-attribute values: the library's writer against its parser and the standard
+// ---------------------------------------------------------------------------------------
+
+struct AttrValues {
+    cases: Vec<dnp3::app::attr::OwnedAttrValue>,
+}
+
+fn build_attr_values() -> AttrValues {
+    use dnp3::app::attr::{FloatType, OwnedAttrValue as V};
+    let mut cases = Vec::new();
+    for x in [i32::MIN, i32::MIN + 1, -65536, -32769, -32768, -32767, -256, -255, -129, -128, -127, -2, -1, 0, 1, 2, 126, 127, 128, 255, 256, 32766, 32767, 32768, 65535, 65536, i32::MAX - 1, i32::MAX] {
+        cases.push(V::SignedInt(x));
+    }
+    for x in [0u32, 1, 127, 128, 254, 255, 256, 32767, 32768, 65534, 65535, 65536, u32::MAX - 1, u32::MAX] {
+        cases.push(V::UnsignedInt(x));
+    }
+    for x in [0.0f32, -0.0, 1.5, -1.5, f32::MIN, f32::MAX, f32::MIN_POSITIVE, f32::INFINITY, f32::NEG_INFINITY] {
+        cases.push(V::FloatingPoint(FloatType::F32(x)));
+    }
+    for x in [0.0f64, -0.0, 1.5, -1.5, f64::MIN, f64::MAX, f64::MIN_POSITIVE, f64::INFINITY, f64::NEG_INFINITY] {
+        cases.push(V::FloatingPoint(FloatType::F64(x)));
+    }
+    for n in [0usize, 1, 2, 127, 128, 254, 255] {
+        cases.push(V::VisibleString("x".repeat(n)));
+        cases.push(V::OctetString((0..n).map(|k| (k * 3) as u8).collect()));
+        cases.push(V::BitString((0..n).map(|k| (k * 5 + 1) as u8).collect()));
+    }
+    for t in [0u64, 1, 0x0102_0304_0506, (1 << 48) - 1] {
+        cases.push(V::Dnp3Time(dnp3::app::Timestamp::new(t)));
+    }
+    AttrValues { cases }
+}
+
+/// value carried by an attribute encoding, decoded as IEEE 1815 (Annex A, g0) says
+fn attr_reference_decode(b: &[u8]) -> Option<String> {
+    use dnp3::app::attr::{FloatType, OwnedAttrValue as V};
+    if b.len() < 2 || b.len() != 2 + b[1] as usize {
+        return None;
+    }
+    let d = &b[2..];
+    let v = match (b[0], d.len()) {
+        (1, _) => V::VisibleString(String::from_utf8(d.to_vec()).ok()?),
+        (2, 1) => V::UnsignedInt(d[0] as u32),
+        (2, 2) => V::UnsignedInt(u16::from_le_bytes([d[0], d[1]]) as u32),
+        (2, 4) => V::UnsignedInt(u32::from_le_bytes([d[0], d[1], d[2], d[3]])),
+        (3, 1) => V::SignedInt(d[0] as i8 as i32),
+        (3, 2) => V::SignedInt(i16::from_le_bytes([d[0], d[1]]) as i32),
+        (3, 4) => V::SignedInt(i32::from_le_bytes([d[0], d[1], d[2], d[3]])),
+        (4, 4) => V::FloatingPoint(FloatType::F32(f32::from_le_bytes([d[0], d[1], d[2], d[3]]))),
+        (4, 8) => V::FloatingPoint(FloatType::F64(f64::from_le_bytes([d[0], d[1], d[2], d[3], d[4], d[5], d[6], d[7]]))),
+        (5, _) => V::OctetString(d.to_vec()),
+        (6, _) => V::BitString(d.to_vec()),
+        (7, 6) => V::Dnp3Time(dnp3::app::Timestamp::new(u64::from_le_bytes([d[0], d[1], d[2], d[3], d[4], d[5], 0, 0]))),
+        _ => return None,
+    };
+    Some(format!("{v:?}"))
+}
+
+impl CaseSpace for AttrValues {
+    fn name(&self) -> String {
+        "attribute-values".into()
+    }
+    fn total(&self) -> usize {
+        self.cases.len()
+    }
+    fn run(&self, index: usize, transcript: bool) -> RunResult {
+        let mut res = RunResult::default();
+        let v = &self.cases[index];
+        let original = format!("{v:?}");
+        res.obs = crate::explore::fnv_str(&original);
+        res.transitions = 1;
+        let (encoded, decoded) = match crate::kernel::guarded(|| dnp3::verif::seams::attr_value_roundtrip(v)) {
+            Ok(o) => o,
+            Err(e) => {
+                res.violation = Some(Violation::new("C09.X0", "panic:attribute-value", format!("{original}: {e}")));
+                return res;
+            }
+        };
+        let key = original.split('(').next().unwrap_or("").to_string();
+        if transcript {
+            res.transcript.push(format!("value   {}", &original[..original.len().min(80)]));
+            res.transcript.push(format!("encoded {:?}", encoded.as_ref().map(|b| app::hex(&b[..b.len().min(32)]))));
+            res.transcript.push(format!("decoded {:?}", decoded.as_ref().map(|d| &d[..d.len().min(80)])));
+        }
+        let bytes = match encoded {
+            Ok(b) => b,
+            Err(e) => {
+                res.violation = Some(Violation::new("C09.V1", format!("attribute-value-not-encoded:{key}"), format!("{original}: {e}")));
+                return res;
+            }
+        };
+        let reference = attr_reference_decode(&bytes);
+        if reference.as_deref() != Some(original.as_str()) {
+            res.violation = Some(Violation::new("C09.V1", format!("attribute-encoding-does-not-carry-the-value:{key}"), format!("{original} encoded as {}, which is {:?}", app::hex(&bytes[..bytes.len().min(32)]), reference)));
+            return res;
+        }
+        if decoded.as_deref() != Ok(original.as_str()) {
+            res.violation = Some(Violation::new("C09.V2", format!("attribute-value-decodes-to-something-else:{key}"), format!("{original} encoded as {} parsed as {:?}", app::hex(&bytes[..bytes.len().min(32)]), decoded)));
+            return res;
+        }
+        res.nontrivial = true;
+        res.model_states.push(bytes[0] as u64 * 16 + bytes[1].min(15) as u64);
+        res
+    }
+}
+
 pub fn replay(name: &str, path: &[usize]) -> Option<RunResult> {
     for tier in ["quick", "thorough"] {
         let a = build_accept(tier);
@@ -834,6 +1150,14 @@ pub fn replay(name: &str, path: &[usize]) -> Option<RunResult> {
     if m.name() == name {
         return Some(m.run(path[0], true));
     }
+    let f = build_file_objects();
+    if f.name() == name {
+        return Some(f.run(path[0], true));
+    }
+    let f = build_attr_values();
+    if f.name() == name {
+        return Some(f.run(path[0], true));
+    }
     None
 }
 
@@ -842,9 +1166,11 @@ pub fn check(tier: &str) -> i32 {
     c.cases(&Programs { master: master_requests(), outstation: 48 });
     c.cases(&build_accept(tier));
     c.cases(&build_mutants());
+    c.cases(&build_file_objects());
+    c.cases(&build_attr_values());
     c.finish(
         "exploration",
-        "(a) every request kind the master API builds (8 READ forms, 24 command sets over 5 control types x 8/16-bit indices x direct/select incl. the OPERATE step, both time synchronisations incl. their second step, restarts, dead-band writes, freeze requests with time-and-interval, file requests) and 48 outstation corpora (every static and event variation of all eight types at sparse indices up to 65535, control echoes, delay, restart, error responses, at transmit sizes 249 and 2048) are parsed by the library parser and by the engine's walker: function, flags, IIN, headers, counts and indices must agree and the lazy second pass must equal the first; (b) for every (group, variation) [known groups x 15 variations quick; all 65 536 thorough] x qualifier [12 quick; all 256 thorough] x function {READ, WRITE, RESPONSE} x 7 count/range shapes x {exact, -1 byte, +1 byte, header only}: if the library accepts, the reference size table must agree that the bytes are exactly what the header implies and iteration must yield the declared number of objects with the declared indices; (c) every truncation, three one-byte extensions and three mutations of every byte of the corpus fragments; non-trivial = the variation is known to the reference; distinct = distinct input",
+        "(a) every request kind the master API builds (8 READ forms, 24 command sets over 5 control types x 8/16-bit indices x direct/select incl. the OPERATE step, both time synchronisations incl. their second step, restarts, dead-band writes, freeze requests with time-and-interval, file requests) and 48 outstation corpora (every static and event variation of all eight types at sparse indices up to 65535, control echoes, delay, restart, error responses, at transmit sizes 249 and 2048) are parsed by the library parser and by the engine's walker: function, flags, IIN, headers, counts and indices must agree and the lazy second pass must equal the first; (b) for every (group, variation) [known groups x 15 variations quick; all 65 536 thorough] x qualifier [12 quick; all 256 thorough] x function {READ, WRITE, RESPONSE} x 7 count/range shapes x {exact, -1 byte, +1 byte, header only}: if the library accepts, the reference size table must agree that the bytes are exactly what the header implies and iteration must yield the declared number of objects with the declared indices; (c) every truncation, three one-byte extensions and three mutations of every byte of the corpus fragments; (d) group 70 free-format objects v2..v8: all 512 permission words x 2 settings of the other fields (v3, v7), all 256 status codes / boundary mode and type codes x boundary numbers, strings and data lengths: the library's writer must produce the encoding of IEEE 1815 Annex A and its reader must turn that encoding back into the same object; (e) device-attribute values of every type at boundary values (signed and unsigned integers around every length boundary, floats, strings of length 0..255, time): the writer's encoding carries the value per Annex A and the parser returns it; non-trivial = the variation is known to the reference; distinct = distinct input",
         &["object values inside accepted headers are compared by C10 (end to end), here counts and indices are compared through the library's own object display"],
         serde_json::json!({}),
     )
